@@ -367,9 +367,11 @@ func c10PeerAttribute(t *testing.T, cache, silent map[string]string, cfg c10Peer
 		o.fail.Key = sk
 		return
 	}
-	if len(cfg.Knobs) == 1 {
-		for _, k := range c10FlightSiblings(cfg.Knobs[0]) {
-			if bc := (c10PeerCfg{Base: cfg.Base, Knobs: []int{k}, Peer: cfg.Peer, Seed: cfg.Seed}); same(bc) {
+	for i := range cfg.Knobs {
+		for _, k := range c10FlightSiblings(cfg.Knobs[i]) {
+			ks := append([]int{}, cfg.Knobs...)
+			ks[i] = k
+			if bc := (c10PeerCfg{Base: cfg.Base, Knobs: ks, Peer: cfg.Peer, Seed: cfg.Seed}); same(bc) {
 				o.fail.Key = bc.id() + suffix
 				return
 			}
